@@ -205,6 +205,11 @@ def handle : List String → String
     match mn.toNat?, mx.toNat? with
     | some mn, some mx => if ngramNewOk mn mx then "ok" else "err"
     | _, _ => "bad-op"
+  | ["unesc", d] =>
+    -- the model's reader of the HTML (`unescapeChars`) applied to the characters of a real rendering
+    match (if d == "-" then some [] else dotList d) with
+    | some cs => let r := unescapeChars cs; if r.isEmpty then "-" else showDots r
+    | none => "bad-op"
   | ["collapse", l] =>
     match (natList l).bind pairs with
     | some ps => showNatList ((collapse ps).flatMap (fun h => [h.1, h.2]))
